@@ -241,6 +241,9 @@ def run(ctx):
     covered = nedges - never
     ctx.log("walk: %d steps, %d/%d edges covered, %d alternatives never taken by the code, %d flaky" % (
         steps, covered, nedges, never, len(flaky)))
+    done = next(r for r in rows if r.get("kind") == "done")
+    if nobad and min(done["restarts_last_later"], done["restarts_last_earlier"]) < 20:
+        raise vlib.Inconclusive("too few restarts with two live sessions of different expiries in both token orders: %s" % done)
     if holes and nobad:
         raise vlib.Inconclusive("walk left %d (state, action) pairs unexplored, e.g. %s" % (len(holes), holes[:3]))
     if len(flaky) > 5:
@@ -281,6 +284,8 @@ def run(ctx):
                 "spec's nondeterministic points (count kept/forgotten at the end instant; expiry prolonged or not)",
         "trace_lines": len(t_rl) + len(t_au), "trace_lines_rejected": len(bad_rl) + len(bad_au),
         "trace_blocked_replies": blocked_lines, "flaky": len(flaky),
+        "restarts_2live_diff_expiry_last_token_expires_later": done["restarts_last_later"],
+        "restarts_2live_diff_expiry_last_token_expires_earlier": done["restarts_last_earlier"],
         "exhaustive": True, "samples": samples,
         # TLC's own counters of the two exhaustive runs only (the trace
         # validation runs are linear and not counted here).
